@@ -30,8 +30,9 @@ WellFormed(in) ==
        /\ (CForm(v) = "unit" /\ v.shape # "unit") => Mapped(v) = {}
        /\ (CForm(v) # "unit") => (Mapped(v) # {} \/ v.shape = "unit")
        /\ (v.shape = "unit" => v.it \notin {"hint_unit"})
-       \* tuple payload: ghosts only trailing (positions)
-       /\ (v.shape = "tuple" \/ CForm(v) = "tuple") => \A a, b \in DOMAIN v.fs : a < b /\ v.fs[a] = "ghostd" => v.fs[b] = "ghostd"
+       \* positional counterpart payload: ghosts only trailing (same-position is ambiguous otherwise, DESIGN 8.1);
+       \* with a named counterpart payload (type_hint(as {})) every mapped field names its target, so ghosts may stand anywhere
+       /\ CForm(v) = "tuple" => \A a, b \in DOMAIN v.fs : a < b /\ v.fs[a] = "ghostd" => v.fs[b] = "ghostd"
   \* a ghost variant without default needs the default case for Into
   /\ (\E i \in DOMAIN in.vs : in.vs[i].it = "ghost") => in.dflt
   /\ (\E i \in DOMAIN in.vs : ~IsGhostV(in.vs[i]))
